@@ -590,6 +590,17 @@ class Engine:
                 return self.float_result(x - y, st, "sub")
             if isinstance(op, ast.Mult):
                 return self.float_result(x * y, st, "mul")
+            if isinstance(op, ast.Mod):
+                # float remainder with the sign of the divisor: x - y*floor(x/y); fmod is exact,
+                # the sign adjustment may round once: RN of the exact value over-approximates both
+                if not self.spec_mode:
+                    self.raise_side(st, "ZeroDivisionError", y == 0)
+                q = z3.ToReal(z3.ToInt(x / y))
+                return self.float_result(x - y * q, st, "mod")
+            if isinstance(op, ast.FloorDiv):
+                if not self.spec_mode:
+                    self.raise_side(st, "ZeroDivisionError", y == 0)
+                return self.float_result(z3.ToReal(z3.ToInt(x / y)), st, "floordiv")
             raise OutOfSubset(f"float op {type(op).__name__}")
         x, y = self._int(a), self._int(b)
         if isinstance(op, ast.Add):
